@@ -78,7 +78,10 @@ fn mkid(a: &str, l: &str, seq: u32, v: &str) -> Value {
 pub struct Info {
     pub key: String,
     pub a: String,
+    /// the log the operation is delivered under (log id argument / arrival topic)
     pub l: String,
+    /// the log its signed header names
+    pub ol: String,
     pub seq: u32,
     pub prune: bool,
     pub bl: Option<String>,
@@ -173,6 +176,7 @@ impl World {
                 key: format!("{a}|{l}|{s}|Honest"),
                 a: a.to_string(),
                 l: l.to_string(),
+                ol: l.to_string(),
                 seq: s,
                 prune,
                 bl: if s == 0 { None } else { Some(format!("{a}|{l}|{}|Honest", s - 1)) },
@@ -190,7 +194,7 @@ impl World {
         let mut body = base.body.clone();
         let author = self.name_of(&h.verifying_key);
         match cls {
-            "Honest" => {}
+            "Honest" | "CrossLog" => {}
             "BadSig" => {
                 let mut sig = h.signature.expect("signed").to_bytes();
                 let bit = (tweak % 512) as usize;
@@ -524,11 +528,13 @@ impl Judge {
             if !justified {
                 let sig = if res == Res::Rejected { "prune-after-failed-ingest" } else { "prune-without-valid-prune-operation" };
                 f.push(("C04", sig.into(), format!("{} (valid: {}, prune flag: {}, ingest: {}) deleted {:?}", info.key, info.wf, info.prune, res.name(), deleted.iter().map(|r| r.key.clone()).collect::<Vec<_>>())));
+            } else if info.l != info.ol {
+                f.push(("C04", "cross-log-prune".into(), format!("{} is an operation of log {}/{} that arrived on the topic of log {}: it deleted {:?} of {}/{}", info.key, info.a, info.ol, info.l, deleted.iter().map(|r| r.key.clone()).collect::<Vec<_>>(), info.a, info.l)));
             } else if deleted.iter().any(|r| r.a != info.a || r.l != info.l || r.seq >= info.seq) {
                 f.push(("C04", "prune-outside-own-log-prefix".into(), format!("{} (prune point {}/{}/{}) deleted {:?}", info.key, info.a, info.l, info.seq, deleted.iter().map(|r| r.key.clone()).collect::<Vec<_>>())));
             }
         }
-        if justified {
+        if justified && info.l == info.ol {
             if let Some(r) = after.iter().find(|r| r.a == info.a && r.l == info.l && r.seq < info.seq) {
                 f.push(("C04", "prune-incomplete".into(), format!("after the prune point {}/{}/{} was processed {} (seq {}) is still stored", info.a, info.l, info.seq, r.key, r.seq)));
             }
@@ -599,6 +605,7 @@ fn item_info(item: &Value) -> Info {
         key: idkey(&item["id"]),
         a: item["a"].as_str().unwrap().to_string(),
         l: item["l"].as_str().unwrap().to_string(),
+        ol: item["ol"].as_str().unwrap().to_string(),
         seq: item["seq"].as_u64().unwrap() as u32,
         prune: item["prune"].as_bool().unwrap(),
         bl: if item["bl"]["seq"].as_i64() == Some(-1) { None } else { Some(idkey(&item["bl"])) },
@@ -728,7 +735,7 @@ fn info_json(i: &Info) -> Value {
     };
     json!({
         "id": {"a": id[0], "l": id[1], "seq": id[2].parse::<i64>().unwrap_or(-1), "v": id[3]},
-        "a": i.a, "l": i.l, "seq": i.seq, "prune": i.prune, "bl": bl, "wf": i.wf,
+        "a": i.a, "l": i.l, "ol": i.ol, "seq": i.seq, "prune": i.prune, "bl": bl, "wf": i.wf,
     })
 }
 
